@@ -8,7 +8,7 @@ PROFILE = {'name': 'c19', 'max_clients': 6, 'hostile_masks': False, 'cfg_variant
 def run(ctx):
     res = Result("C19")
     results, cover, shapes = common.e1_check(
-        ctx, res, PROFILE, n_quick=128, n_thorough=640, steps=150, steps_thorough=300,
+        ctx, res, PROFILE, n_quick=128, n_thorough=2560, steps=150, steps_thorough=300,
         relevant=lambda t: t[0] in ('lusers', 'ison', 'userhost'),
         nontrivial_rule="histories rich in +i/-i, +o/-o, +O/-O, repeated OPER, nick changes, channel birth/death and endings of every kind with LUSERS/ISON/USERHOST probes; the welcome burst's LUSERS block is checked on every registration; counters in the snapshot are recounted (I4) and the high-water mark is carried from the history; distinct = (users, invisible, operators, channels, max) tuples seen in LUSERS + ISON/USERHOST answer classes")
     n = sum(c for s, c in shapes.items() if s in ("lusers", "ison", "userhost", "register"))
